@@ -14,3 +14,12 @@ def setup(E):
                           "bounded: same inputs, every cost vector (segmental-loss cost 0 and incoherent vectors included)")
     E._c05 = srec.standin("labelled-solvers:all-any-vs-optimal-set", ("ordered", "unordered"), ("optimal", "all-any"),
                           "bounded: same inputs; complete optimal set from the oracle (unordered: canonical labellings)")
+
+    from standin import steps
+
+    E._st_thl = steps.standin("thl-step-functions:recurrence-contract-at-runtime", "thl",
+                              "bounded: species trees <= 4 leaves, 1500 (20000) random tables; executable Bellman contract of _compute_thl_try_speciation / _compute_thl_try_duplication_transfer")
+    E._st_spfs = steps.standin("spfs-entry:recurrence-contract-at-runtime", "spfs",
+                               "bounded: species trees <= 4 leaves, masks <= 4 bits, 1500 (20000) random tables; executable recurrence contract of _compute_spfs_entry")
+    E._st_uspfs = steps.standin("uspfs-entry:recurrence-contract-at-runtime", "uspfs",
+                                "bounded: species trees <= 4 leaves, <= 3 families, 1500 (20000) random tables; executable recurrence contract of _compute_uspfs_entry")
